@@ -888,18 +888,6 @@ func (ts *Service) handleUpdateTask(w http.ResponseWriter, r *http.Request) {
 			httpd.HttpError(w, fmt.Sprintf("unknown template %s: err: %s", task.TemplateID, err), true, http.StatusBadRequest)
 			return
 		}
-		if original.ID != updated.ID || original.TemplateID != updated.TemplateID {
-			if original.TemplateID != "" {
-				if err := ts.templates.DisassociateTask(original.TemplateID, original.ID); err != nil {
-					httpd.HttpError(w, fmt.Sprintf("failed to disassociate task with template: %s", err), true, http.StatusBadRequest)
-					return
-				}
-			}
-			if err := ts.templates.AssociateTask(templateID, updated.ID); err != nil {
-				httpd.HttpError(w, fmt.Sprintf("failed to associate task with template: %s", err), true, http.StatusBadRequest)
-				return
-			}
-		}
 		updated.Type = template.Type
 		updated.TICKscript = template.TICKscript
 		updated.TemplateID = templateID
@@ -1032,6 +1020,21 @@ func (ts *Service) handleUpdateTask(w http.ResponseWriter, r *http.Request) {
 	} else {
 		if err := ts.tasks.Replace(updated); err != nil {
 			httpd.HttpError(w, fmt.Sprintf("failed to replace task definition: %s", err.Error()), true, http.StatusInternalServerError)
+			return
+		}
+	}
+
+	// Move the template association only now that the new definition is stored,
+	// a rejected update must not leave the association behind.
+	if updated.TemplateID != "" && (original.ID != updated.ID || original.TemplateID != updated.TemplateID) {
+		if original.TemplateID != "" {
+			if err := ts.templates.DisassociateTask(original.TemplateID, original.ID); err != nil {
+				httpd.HttpError(w, fmt.Sprintf("failed to disassociate task with template: %s", err), true, http.StatusInternalServerError)
+				return
+			}
+		}
+		if err := ts.templates.AssociateTask(updated.TemplateID, updated.ID); err != nil {
+			httpd.HttpError(w, fmt.Sprintf("failed to associate task with template: %s", err), true, http.StatusInternalServerError)
 			return
 		}
 	}
